@@ -15,3 +15,4 @@ import Theorems.C10
 import Theorems.C11
 import Theorems.Typed
 import Theorems.C03T
+import Theorems.Message
